@@ -180,6 +180,14 @@ def _subtree(arg):
     return n, viols, outcomes, maxpts
 
 
+def _expand(arg):
+    """execute one prefix, return its verdict and the prefixes of its children (second-level split for load balance)"""
+    kinds, bound, root = arg
+    points, choices, (verdict, obs, npts) = run_one(kinds, root)
+    kids = sched.alternatives(points, choices, len(root), bound)
+    return (verdict, list(choices), obs, npts, kids)
+
+
 # ---- sequential release cases -----------------------------------------------------------------
 
 def release_cases():
@@ -214,6 +222,18 @@ def release_cases():
         r = c.post("/%s/run-step" % iid, json={"settings": {}})
         if r.status_code != 200:
             out.append(("release/%s/lock-not-released" % case, {"release": case}, "follow-up run-step -> %d %r" % (r.status_code, str(srv.body(r))[:150])))
+    # one specific three-request schedule (it needs two preemptions and three threads, beyond the explored bound): a stream ends,
+    # the next request takes the lock, only then the server closes the stream's response - the close must not take that lock away
+    app, iid, inst = setup_server()
+    c = app.test_client()
+    r = c.post("/%s/stream-steps" % iid, json={"settings": {}})
+    for _ in r.iter_encoded():
+        pass
+    took = inst.try_lock() if hasattr(inst, "try_lock") else (not inst.is_locked() and (inst.lock() or True))
+    r.close()
+    if took and not inst.is_locked():
+        out.append(("release/close-clears-next-requests-lock", {"release": "close-after-next-lock"},
+                    "stream ended, the next request took the lock, then the stream's response was closed: the lock is gone"))
     return out
 
 
@@ -229,18 +249,41 @@ def run(ctx):
     for kinds in core.rot(combos, ctx.seed):
         points, choices, _ = run_one(list(kinds), [])
         jobs.append((list(kinds), 0, []))
-        for r in sched.alternatives(points, choices, 0, bound):
-            jobs.append((list(kinds), bound, r))
+        # the two smallest pairs get bound 2 in the quick tier as well: a window between checking and taking the lock needs one
+        # preemption to enter and a second one to keep the other request in progress
+        b2 = 2 if (ctx.tier == "thorough" or kinds in (("run-step", "run-step"), ("run-step", "run-steps"))) else bound
+        for r in sched.alternatives(points, choices, 0, b2):
+            jobs.append((list(kinds), b2, r))
+    # three requests: bound 1 for all kind triples (thorough), bound 2 for the triples that contain a stream and a single step
+    triples = []
     if ctx.tier == "thorough":
-        for kinds in itertools.combinations_with_replacement(KINDS, 3):
-            points, choices, _ = run_one(list(kinds), [])
-            jobs.append((list(kinds), 0, []))
-            for r in sched.alternatives(points, choices, 0, 1):
-                jobs.append((list(kinds), 1, r))
+        triples += [(list(k), 1) for k in itertools.combinations_with_replacement(KINDS, 3)]
+    else:
+        triples += [(["stream-steps", "run-step", "run-step"], 1)]
+    for kinds, b3 in triples:
+        points, choices, _ = run_one(list(kinds), [])
+        jobs.append((list(kinds), 0, []))
+        for r in sched.alternatives(points, choices, 0, b3):
+            jobs.append((list(kinds), b3, r))
+    # stage 1: every first-level prefix is executed once and yields its children; stage 2: the subtrees below the children
+    first = [j for j in jobs if j[2]]
+    exp = core.pmap(_expand, first)
+    stage2 = [j for j in jobs if not j[2]]
+    pre = []
+    for (kinds, bnd, root), (verdict, choices, obs, npts, kids) in zip(first, exp):
+        pre.append((kinds, verdict, choices, obs, npts))
+        for kpref in kids:
+            stage2.append((kinds, bnd, kpref))
+    jobs = stage2
     res = core.pmap(_subtree, jobs)
-    total = 0
+    total = len(pre)
     maxpts = 0
     outcomes = {}
+    for kinds, verdict, choices, obs, npts in pre:
+        maxpts = max(maxpts, npts)
+        outcomes.setdefault("+".join(kinds), set()).add(obs)
+        if verdict:
+            ctx.violation("C18/%s/%s" % (verdict[0], "+".join(kinds)), {"kinds": kinds, "choices": choices}, verdict[1])
     for (kinds, bnd, root), (n, viols, outs, mp) in zip(jobs, res):
         total += n
         maxpts = max(maxpts, mp)
@@ -251,13 +294,13 @@ def run(ctx):
         ctx.violation("C18/" + sig, case, detail)
     ctx.finish({
         "states": total, "transitions": total, "traces_validated_against_impl": total,
-        "preemption_bound": bound, "max_scheduling_points": maxpts, "request_combinations": ["+".join(k) for k in combos],
+        "preemption_bound": bound, "preemption_bound_small_pairs": 2, "max_scheduling_points": maxpts, "request_combinations": ["+".join(k) for k in combos],
         "distinct_outcomes_per_combination": {k: len(v) for k, v in outcomes.items()},
-        "release_cases": 7,
+        "release_cases": 8,
         "samples": [{"kinds": jobs[1][0], "schedule_prefix": jobs[1][2]}, {"kinds": jobs[-1][0], "schedule_prefix": jobs[-1][2]}],
         "rule": "every schedule with <= %d preemptions of two concurrent stepping requests (all 6 unordered kind pairs%s) at the source lines of the stepping "
-                "handlers, the streamer, lock/unlock/is_locked/try_lock and the session-touching lines of bptk.run_step; plus 7 sequential release cases" % (
-                    bound, "; three requests with <= 1 preemption" if ctx.tier == "thorough" else ""),
+                "handlers, the streamer, lock/unlock/is_locked/try_lock and the session-touching lines of bptk.run_step; plus 8 sequential release cases" % (
+                    bound, "; three requests: " + ", ".join("%s<=%d" % ("+".join(k), b) for k, b in triples)),
     }, assumptions=["preemption at source-line granularity only", "Flask test clients in controlled threads instead of a threaded WSGI server",
                     "the per-equation simulation threads of a step run to completion inside their parent's turn"])
 
